@@ -197,6 +197,7 @@ PROPS["C08"] = {
     "no_kani": True,
     "needs_rand_090": False,
     "mirlex": True,
+    "mirlex_labels": ["X1", "X2", "X3", "X4", "X5"],
     "functions": ["MIR of <ec_core::operator::selector::lexicase::Lexicase as Selector<P>>::select"],
     "bounds": {
         "quick": "populations x cases (n,m) in {(0,0),(0,2),(1,0),(1,2),(2,1),(2,2),(3,2),(2,3),(3,3),(4,2)}, every result a SYMBOLIC unbounded integer (ties, duplicates and every relative "
@@ -378,6 +379,8 @@ PROPS["C16"] = {
         "MIR engine bin/mirinput (z3): PushStateBuilder::with_{int,bool,float}_input and build, <VariableName as From<&str>>::from, PushInstruction::push_{int,bool,float} and the constructors they call, PushState::with_input, its lookup closure, the derived <VariableName as PartialEq>::eq",
     ],
     "mirinput": {"quick": 4, "thorough": 5},
+    "mirlex": "hidden",
+    "mirlex_labels": ["X6"],
     "bounds": {
         "quick": "self-composition: each operation is run twice from two clones of ONE symbolic 6-word tape (then all-ones): equal results (identity for selectors) and equal generator "
                  "states (cursor and per-entry-point call counters); and twice on one operator value vs on fresh values (no hidden state); populations / genomes of 3 symbolic "
@@ -385,7 +388,7 @@ PROPS["C16"] = {
         "thorough": "same Kani harnesses; MIR engine (z3): N <= 5 declared inputs (pairwise distinct SYMBOLIC names = strings of 1..=2 alphanumeric ASCII bytes with symbolic length and bytes, symbolic values, int/bool/float mixes) bound through the generated builder methods, build(), then one with_input of a SYMBOLIC name (equal to any declared name or to none) under EVERY iteration order of the hash map (n! orders, fork per order): exactly the instruction bound to the queried name is performed; an undeclared name reaches the documented panic",
     },
     "outside": "hash-map iteration order anywhere else than the input lookup (none found: input_instructions is the only HashMap in the library crates); more than one lookup per state (the map is never modified by a lookup); Generation::serial_next / par_next (rand::rng(): see C09); "
-               "lexicase with >= 2 cases (C08), Plushy parsing (C05), UMAD on non-empty parents (solver budget, see C11); Push run_to_completion determinism beyond single steps "
+               "the lexicase LAW with >= 2 cases (C08; its independence of earlier calls IS decided here: MIR engine bin/mirlex, X6 - a second call on the same operator value hands the case-order shuffle the same input as the first, populations of 2 and 3 with 2 cases), Plushy parsing (C05), UMAD on non-empty parents (solver budget, see C11); Push run_to_completion determinism beyond single steps "
                "(single steps are functional by the C01 STEP lemma); streams longer than 6 words. A library function reaching thread-local / OS randomness is not a failed "
                "assertion here but a harness that no longer compiles or links under Kani (reported as inconclusive, exit 2)",
     "assumptions": ["TapeRng models 'equal generator states': same tape, same cursor, same call counters", "bin/mirinput: rustc MIR (nightly, -Zunpretty=mir) is the semantics of the source; callee models (not executed): HashMap::insert = finite map, HashMap::iter = any order of the entries, Iterator::find_map = call the closure per entry in that order, <Arc<str> as PartialEq>::eq = same length and same bytes (z3), str::bytes / zip / all / len / eq_ignore_ascii_case on the same symbolic bytes, bool::then_some, Option::unwrap_or_else, Clone of PushInstruction = identity, Instruction::perform recorded (its effect is C01); an unknown statement or callee makes the run inconclusive (exit 2), never a pass"],
